@@ -20,7 +20,7 @@ bounds: Timeout only with idle_timeout > 0 and no earlier than last connect + id
 the flag set, not before it was set; listen() returns no earlier than the client-side close of every connection \
 that received at least one reply; every such connection's reply stream is complete per the reply-stream checker; \
 the socket path is gone afterwards; generous upper bounds (flag -> return within 2.1 s when nothing is in flight, \
-last close -> return within idle_timeout + 2 s) must be missed twice in a row to count. Non-trivial: a scenario \
+last close -> return within idle_timeout + 2 s) must be missed twice in a row to count. A connection that connected 150 ms or more before the flag was set (saturated-pool scenarios included) is served before listen() returns. Non-trivial: a scenario \
 with at least one connection alive at a deadline or at the time the flag is set; distinct by scenario.";
 
 #[derive(Clone, Debug)]
